@@ -93,12 +93,12 @@ def exact_plain(v):
 
 def plain_but_keys(v):
     """plain except that maps may have non-string scalar keys"""
-    if v is None or isinstance(v, (bool, int, float, str)):
+    if v is None or type(v) in (bool, int, float, str):
         return True
-    if isinstance(v, list):
+    if type(v) is list:
         return all(plain_but_keys(x) for x in v)
-    if isinstance(v, dict):
-        return all((k is None or isinstance(k, (bool, int, float, str))) and plain_but_keys(x) for k, x in v.items())
+    if type(v) is dict:
+        return all((k is None or type(k) in (bool, int, float, str)) and plain_but_keys(x) for k, x in v.items())
     return False
 
 
